@@ -43,6 +43,9 @@ import (
 //	src_handler_read_only_on_error
 //	                          flow.go: every receive from an answer's handler channel (a field named handler) lies inside
 //	                          an if statement whose condition tests that the answer's error is not nil
+//	src_unsubscribe_drains    pkg/tracing/tracer.go tracer.Unsubscribe: every select in which the caller offers its request or
+//	                          waits for the acknowledgement also has a clause that receives from the caller's own channel
+//	                          (the subscriber keeps emptying its buffer while it leaves)
 //	src_setvariable_replaces  pkg/data/impl.go FlowDataLocator.SetVariable: a stored value is never written through
 //	                          (no assignment to a field of something that was read out of the variables table); the
 //	                          name is pointed at another value instead
@@ -61,6 +64,7 @@ type protoFacts struct {
 	ProbingKeyIsTheId   bool
 	FlowsInRefOrder     bool
 	HandlerOnlyOnError  bool
+	UnsubscribeDrains   bool
 }
 
 func findMethod(f *ast.File, recv, name string) *ast.FuncDecl {
@@ -490,6 +494,51 @@ func protocolFacts(c *factsCtx) (pf protoFacts) {
 		}
 		pf.HandlerOnlyOnError = reads > 0 && guarded == reads
 	}
+	// --- pkg/tracing/tracer.go: Unsubscribe
+	if un := findMethod(c.parse("pkg/tracing/tracer.go"), "tracer", "Unsubscribe"); un == nil || un.Type.Params == nil || len(un.Type.Params.List) == 0 || len(un.Type.Params.List[0].Names) == 0 {
+		c.fail("protocol facts: tracer.Unsubscribe(channel) not found in pkg/tracing/tracer.go")
+	} else {
+		param := un.Type.Params.List[0].Names[0].Name
+		selects, draining := 0, 0
+		ast.Inspect(un.Body, func(n ast.Node) bool {
+			sel, ok := n.(*ast.SelectStmt)
+			if !ok {
+				return true
+			}
+			waits, drains := false, false
+			for _, cl := range sel.Body.List {
+				cc, ok := cl.(*ast.CommClause)
+				if !ok || cc.Comm == nil {
+					continue
+				}
+				switch x := cc.Comm.(type) {
+				case *ast.SendStmt:
+					waits = true
+				case *ast.ExprStmt:
+					if u, ok := x.X.(*ast.UnaryExpr); ok && u.Op == token.ARROW {
+						if id, ok := u.X.(*ast.Ident); ok && id.Name == param {
+							drains = true
+						} else if !strings.Contains(nodeText(c.fset, u.X), "Done") {
+							waits = true
+						}
+					}
+				case *ast.AssignStmt:
+					waits = true
+				}
+			}
+			if waits {
+				selects++
+				if drains {
+					draining++
+				}
+			}
+			return true
+		})
+		if selects == 0 {
+			c.fail("protocol facts: tracer.Unsubscribe has no select that offers the request or awaits the acknowledgement")
+		}
+		pf.UnsubscribeDrains = selects > 0 && draining == selects
+	}
 	// --- pkg/data/impl.go
 	if sv := findMethod(c.parse("pkg/data/impl.go"), "FlowDataLocator", "SetVariable"); sv == nil {
 		c.fail("protocol facts: FlowDataLocator.SetVariable not found in pkg/data/impl.go")
@@ -572,8 +621,8 @@ func protocolFacts(c *factsCtx) (pf protoFacts) {
 func init() {
 	factGens = append(factGens, func(c *factsCtx) {
 		pf := protocolFacts(c)
-		fmt.Fprintf(&c.out, "(* protocol facts read off the sources (harness/protocol.go) *)\nDefinition src_active_before_arm : bool := %v.\nDefinition src_termchan_capacity : nat := %d.\nDefinition src_termchan_table_kept : bool := %v.\nDefinition src_determination_is_cas : bool := %v.\nDefinition src_subprocess_registers : bool := %v.\nDefinition src_determination_flag_per_activation : bool := %v.\nDefinition src_join_counter_bits : N := %d%%N.\nDefinition src_join_counter_resets : bool := %v.\nDefinition src_setvariable_replaces : bool := %v.\nDefinition src_token_counter_never_set_back : bool := %v.\nDefinition src_monitor_accumulator_is_local : bool := %v.\nDefinition src_probing_key_is_the_id : bool := %v.\nDefinition src_flows_in_reference_order : bool := %v.\nDefinition src_handler_read_only_on_error : bool := %v.\n\n",
-			pf.ActiveBeforeArm, pf.TermChanCapacity, pf.TermChanTableKept, pf.DeterminationIsCAS, pf.SubProcessRegisters, pf.FlagPerActivation, pf.JoinCounterBits, pf.JoinCounterResets, pf.SetVariableReplaces, pf.CounterNeverSetBack, pf.AccumulatorIsLocal, pf.ProbingKeyIsTheId, pf.FlowsInRefOrder, pf.HandlerOnlyOnError)
+		fmt.Fprintf(&c.out, "(* protocol facts read off the sources (harness/protocol.go) *)\nDefinition src_active_before_arm : bool := %v.\nDefinition src_termchan_capacity : nat := %d.\nDefinition src_termchan_table_kept : bool := %v.\nDefinition src_determination_is_cas : bool := %v.\nDefinition src_subprocess_registers : bool := %v.\nDefinition src_determination_flag_per_activation : bool := %v.\nDefinition src_join_counter_bits : N := %d%%N.\nDefinition src_join_counter_resets : bool := %v.\nDefinition src_setvariable_replaces : bool := %v.\nDefinition src_token_counter_never_set_back : bool := %v.\nDefinition src_monitor_accumulator_is_local : bool := %v.\nDefinition src_probing_key_is_the_id : bool := %v.\nDefinition src_flows_in_reference_order : bool := %v.\nDefinition src_handler_read_only_on_error : bool := %v.\nDefinition src_unsubscribe_drains : bool := %v.\n\n",
+			pf.ActiveBeforeArm, pf.TermChanCapacity, pf.TermChanTableKept, pf.DeterminationIsCAS, pf.SubProcessRegisters, pf.FlagPerActivation, pf.JoinCounterBits, pf.JoinCounterResets, pf.SetVariableReplaces, pf.CounterNeverSetBack, pf.AccumulatorIsLocal, pf.ProbingKeyIsTheId, pf.FlowsInRefOrder, pf.HandlerOnlyOnError, pf.UnsubscribeDrains)
 	})
 	commands["protocol"] = func(env *Env) {
 		c := &factsCtx{repo: env.Repo, fset: token.NewFileSet()}
